@@ -52,6 +52,9 @@ var respPlaces = []respPlace{
 	{"top-level", func(n, i int, fault string) (map[string]string, string) {
 		return map[string]string{"page.tw": sentinelStmts(n, i, fault)}, "page"
 	}},
+	{"after-crlf-lines", func(n, i int, fault string) (map[string]string, string) {
+		return map[string]string{"page.tw": "PAGE-SENTINEL-first\r\nPAGE-SENTINEL-second\r\n" + sentinelStmts(n, i, fault)}, "page"
+	}},
 	{"inside-loop-pass", func(n, i int, fault string) (map[string]string, string) {
 		// fails in pass i of n
 		return map[string]string{"page.tw": fmt.Sprintf("PAGE-SENTINEL-head\n@each(k in rows)PAGE-SENTINEL-row {{ k }}\n@if(k == %d)%s@end@end PAGE-SENTINEL-tail", i, fault)}, "page"
@@ -134,6 +137,8 @@ var respFaults = []string{"{{ 1 / zero }}\n", "{{ MISSING_IDENT_SENTINEL }}\n", 
 	"{{ user.Nmae }}\n", "{{ user['_id'] }}\n", "{{ user.X9.y }}\n", "@each(r in rows)PAGE-SENTINEL-inner{{ loop.Index }}@end\n",
 	"{{ [MISSING_IDENT_SENTINEL] }}\n", "{{ [6 / zero].join('-') }}\n", "@each(t in [MISSING_IDENT_SENTINEL])PAGE-SENTINEL-inner@end\n", "{{ [rows.nofn()].len() }}\n",
 	"@each(r in rows)PAGE-SENTINEL-inner{{ loop = {index: 7} }}@end\n", "@each(r in rows)PAGE-SENTINEL-inner{{ saved = loop }}{{ loop = saved }}@end\n",
+	// a count whose product with the length overflows; a string operator without meaning
+	"{{ \"ab\".repeat(4611686018427387904) }}\n", "{{ \"abcd\".repeat(9223372036854775807) }}\n", "{{ \"ab\".repeat(2147483648 * 2147483648) }}\n", "{{ \"a\" % \"b\" }}\n", "{{ \"100%\" - \"50%\" }}\n",
 	// the message holds a percent sign
 	"{{ 7 % \"2\" }}\n", "{{ \"a\" % 3 }}\n",
 	// the page fails in a later pass of a loop, after the loop has produced output
@@ -148,7 +153,7 @@ func init() {
 	core.Register(&core.Check{
 		ID:    "C17",
 		Level: "exploration",
-		Rule: "cases are all combinations of {debug on, off} x {no custom error page, a valid one, one whose file is missing, one that fails at run time} x templates that succeed, fail at statement i of n for every i (n <= 4) at top level, in pass i of a loop, inside an insert block, inside the layout, inside a component file, inside a slot body, inside a component argument, inside a component argument the component never reads, inside the expression of a two-argument insert, or name an unknown template or a layout, x 30 run-time fault kinds (two with a percent sign in the message; the directory name holds one too); sequences of 2-4 configurations without a reset in between that differ in the debug flag only (the last one governs); the configurations follow each other in one process in seeded order (a stale page cached from another configuration would show). " +
+		Rule: "cases are all combinations of {debug on, off} x {no custom error page, a valid one, one whose file is missing, one that fails at run time} x templates that succeed, fail at statement i of n for every i (n <= 4) at top level, in pass i of a loop, inside an insert block, inside the layout, inside a component file, inside a slot body, inside a component argument, inside a component argument the component never reads, inside the expression of a two-argument insert, or name an unknown template or a layout, x 35 run-time fault kinds (two with a percent sign in the message; the directory name holds one too); sequences of 2-4 configurations without a reset in between that differ in the debug flag only (the last one governs); the configurations follow each other in one process in seeded order (a stale page cached from another configuration would show). " +
 			"A recording http.ResponseWriter captures body and writes; pages, identifiers, file names and the scratch directory carry sentinels, so 'part of the failed page', 'the message' and 'a path' are substring tests; the expected page is selected by the table of the statement. distinct_nontrivial = distinct (configuration, place, fault, position) combinations",
 		Assumptions: []string{
 			"configuration is set through NewTemplate after the verif reset hook (fields are sticky otherwise)",
@@ -494,6 +499,15 @@ func init() {
 						return
 					}
 					// debug on: message, path and line are shown
+					if m := fmtMarker(body); m != "" {
+						c.Violation(sig+":debug-detail-garbled", fmt.Sprintf("the debug page holds %q: a finished message was used as a format string", m), desc)
+					}
+					if pl.name == "after-crlf-lines" && !strings.Contains(fault, "@each") {
+						abs, _ := filepath.Abs(filepath.Join(dir, "page.tw"))
+						if want := fmt.Sprintf("%s:%d", abs, 3+cb.pos); !strings.Contains(body, want) {
+							c.Violation(sig+":debug-line", fmt.Sprintf("the fault stands on line %d (after two CRLF lines); the debug page does not show %q", 3+cb.pos, want), desc)
+						}
+					}
 					_, fe := tpl.String(name, data)
 					if fe == nil {
 						return
